@@ -10,8 +10,6 @@ for name in sorted(n for n in os.listdir("/verif/seeded") if os.path.isdir(f"/ve
         det, und = [], []
         for i in range(1, 21):
             p = f"C{i:02d}"
-            if p == "C03":
-                continue
             r = subprocess.run(["./vcheck", p, "--no-evidence"], cwd="/verif", capture_output=True, text=True)
             if r.returncode == 1:
                 det.append(p)
